@@ -4,6 +4,9 @@ usage: tools/seedall.py [ids...]"""
 import json, os, shutil, subprocess, sys, glob
 EXTRA = {'C19_2': ['C15'], 'C14_1': ['C16'], 'C01_2': ['C05'], 'C04_1': ['C05'], 'C05_1': ['C04'], 'C11_2': ['C05'],
          'C12_5': ['C15'], 'C06_6': ['C03'], 'C03_3': ['C06'], 'C20_6': ['C16'], 'C02_6': ['C06'], 'C14_6': ['C15'], 'C18_6': ['C06']}
+EXTRA.update({'C02_9': ['C01'], 'C02_10': ['C20', 'C16'], 'C03_9': ['C18'], 'C03_10': ['C15'], 'C04_9': ['C05'], 'C05_10': ['C14'],
+              'C06_9': ['C14'], 'C09_10': ['C13'], 'C11_9': ['C19'], 'C14_10': ['C16'], 'C16_9': ['C14'], 'C17_9': ['C16'],
+              'C19_10': ['C16'], 'C20_10': ['C16']})
 only = sys.argv[1:]
 for patch in sorted(glob.glob('/tmp/mut/C??_*.patch.diff')):
     mid = os.path.basename(patch)[:-len('.patch.diff')]
